@@ -63,7 +63,9 @@ async function dynamic ({ leaf, resp, a, v, code, ctx }) {
   let n = 0
   // quick tier: the generated families take the 4 most discriminating environments, the others all of them
   let envs = X.envVariants(code, ctx.tier)
+  // (quick: nested schemas and statement sequences the 8 most discriminating ones)
   if (ctx.tier !== 'thorough' && leaf && 'HQRNLTK'.includes(leaf.fam)) envs = envs.slice(0, 4)
+  else if (ctx.tier !== 'thorough' && leaf && (leaf.fam === 'C' || leaf.fam === 'S')) envs = envs.slice(0, 8)
   for (const spec of envs) {
     await X.runOne(outCtx, spec, (w) => { world = w })
     n++
